@@ -104,6 +104,18 @@ CHECKS = {
    tech="Tz.tla states the runtime's frame condition (which functions read the configured timezone and when a call is pinned); time expressions x formats x instants are evaluated by the real functions under six configured timezones and TLC requires every call classified insensitive to agree across them",
    text="Tz.tla lists the only readers of Context::timezone (parse_timestamp without a timezone argument, the syslog / access-log parsers on inputs without an offset, get_timezone_name) and classifies a call as zone-sensitive only if it is one of them and neither a `timezone:` argument, an offset in the format (%z %:z %+), nor an offset in the input pins the zone. 930 expressions - format_timestamp / parse_timestamp over 8 formats with and without explicit offsets and timezone arguments, unix-timestamp conversions for every unit, to_string/to_int/to_float/encode_json of timestamps, the log parsers, expressions that do not touch time - on 10 instants incl. DST gaps and overlaps are each evaluated under UTC, Asia/Kolkata, America/New_York, Europe/London, Pacific/Chatham and local; TLC checks that every insensitive one yields identical results (the 32 sensitive ones are observed to really differ, so the classification is not vacuous).",
    note="trusted: the TzReaders set (from reading the tree; a NEW reader of the timezone is exactly what the check is meant to expose); `%s` is conservatively treated as unpinned"),
+ "C30": dict(engine="C", cat="exploration", design="6/C30",
+   tech="DdSearch.tla generates query texts from the search grammar; the real parser / to_lucene / parser chain is recorded and TLC checks parse(to_lucene(parse q)) = parse q, naming the circumstance (escape kind, term with space, double negation)",
+   text="DdSearch.tla builds query texts in TLA+: 46 leaves covering terms, quoted phrases, prefix and infix wildcards, attributes (incl. nested paths), tags, reserved fields, comparisons, inclusive/exclusive/open ranges, _exists_/_missing_, match-all, escaped specials (: space - * ( ) quote) and both negation forms; every AND / OR / juxtaposition / group / negated-group of two leaves (6.6k texts) and two levels of nesting over representatives. Each text the real parser accepts is rendered with to_lucene and parsed again; TLC requires the second parse to succeed with an equal tree (PartialEq and Debug rendering).",
+   note="trusted: QueryNode's PartialEq / Debug as the notion of 'same tree'"),
+ "C31": dict(engine="C", cat="model_checking", design="6/C31",
+   tech="DdSearch.tla states the compositional meaning of queries; the real match_datadog_query results for A, B and their combinations on a vocabulary of events are checked by TLC against the identities (NOT, AND, OR, juxtaposition, grouping, nesting, ranges = both bounds)",
+   text="For pairs of leaf queries (quick: 500 seeded pairs, thorough: all 2116) and 8 events over the vocabulary {message, @a, @b.c, @n, tags k, service, host, status, source} with string, numeric, array-valued and absent fields, the harness evaluates the real match_datadog_query for A, B, A AND B, A OR B, NOT (A), -(A), (A), (A) (B) and NOT ((A) AND (B)) OR (B); TLC checks each against the logical combination of the real leaf results. Ranges [lo TO hi], {lo TO hi} and open ends on attribute, tag and reserved fields are checked against the conjunction of their two comparison queries.",
+   note="trusted: leaf semantics are the real matcher's (differences between leaves and the documented search semantics would be divergences, not judged); the finite vocabulary"),
+ "C32": dict(engine="C", cat="exploration", design="6/C32",
+   tech="Grok.tla generates the cases and computes the expected outcome itself (alias-stack expansion for cycles, literal texts, a reference matcher with captures on character sequences); the real parse_groks results are compared by TLC",
+   text="(i) all 512 alias digraphs on three aliases: Grok.tla expands the rule's alias depth-first with an explicit alias stack - compilation must be rejected iff the expansion meets an alias already on the stack, otherwise the rule must match the expansion's text; (ii) literal rules of <= 2 (thorough 3) characters over letters, digits, space and escaped regex metacharacters must match their own unescaped text and none of the other texts; (iii) rules `%{P1:f} %{P2:g}` with P1 in {word, integer, notSpace}, P2 in {word, integer, notSpace, data} on all inputs of <= 4 (thorough 5) characters over {a,Z,1,2,-,_,space,.}: match / no match and the captured values (strings, integers after the integer filter) must equal the reference matcher's.",
+   note="trusted: the reference matcher's reading of the four patterns (\\w+, [-+]?\\d+, \\S+, .*?); an empty capture may be omitted from the result"),
 }
 
 NA = {
